@@ -1061,3 +1061,191 @@ func (d *drv) programmaticStatusStream() {
 		d.addCase(lit(fmt.Sprintf("IStatus (mkstatusf (RSObj true true) true true (RAns (mkstatusj true None) %s %s))", sf.coq(), m)), o.Class, in)
 	}
 }
+
+// ------------------------------------------------ (vii) caller-supplied paths
+// Path.MtEntry and everything built on it (Merklizer.Entry / Proof / JSONLDType,
+// RDFEntry.KeyValueMtEntries) on paths with empty, blank, very long parts, negative
+// and huge indices, too many parts; NewPathFromContext / NewPathFromDocument /
+// ResolveDocPath with odd path strings.
+func (d *drv) recordPathPrims(parts []any) {
+	var elems []*big.Int
+	ok := true
+	for _, p := range parts {
+		switch x := p.(type) {
+		case string:
+			z, err := d.prims.Bytes(x)
+			if err != nil || z == nil {
+				ok = false
+			}
+			elems = append(elems, z)
+		case int:
+			elems = append(elems, big.NewInt(int64(x)))
+		default:
+			ok = false
+		}
+	}
+	if ok {
+		_, _ = d.prims.Hash(elems)
+	}
+}
+
+func (d *drv) pathStream() {
+	doc := []byte(`{"@context":{"@vocab":"urn:v:","id":"@id","type":"@type"},"id":"urn:a","s":"x","p":{"q":["y","z"]},"n":5}`)
+	var mz *merklize.Merklizer
+	if o := guard(watchdog, func() error {
+		var err error
+		mz, err = merklize.MerklizeJSONLD(context.Background(), bytes.NewReader(doc), merklize.WithDocumentLoader(d.loader))
+		return err
+	}); o.Class != "ok" {
+		d.rep.Fail("c12-generator", "path stream: document not merklized: "+o.Msg, string(doc))
+		return
+	}
+	long := strings.Repeat("p", 70000)
+	many := make([]any, 17)
+	for i := range many {
+		many[i] = fmt.Sprintf("urn:v:p%d", i)
+	}
+	lists := [][]any{
+		{"urn:v:s"}, {"urn:v:p", "urn:v:q", 0}, {"urn:v:p", "urn:v:q", 1}, {"urn:v:p", "urn:v:q", 2}, {"urn:v:n"}, {"urn:v:missing"},
+		{""}, {"urn:v:s", ""}, {"", "urn:v:s"}, {"", ""}, {" "}, {"\t"}, {"urn:v:p", " ", 0}, {"\x00"}, {"\xff\xfe"},
+		{long}, {"urn:v:p", long}, {0}, {-1}, {"urn:v:p", -1}, {"urn:v:p", math.MaxInt64}, {"urn:v:p", math.MinInt64},
+		many, many[:16], {}, {"urn:v:p", "urn:v:q", 0, ""},
+	}
+	for i := 0; i < d.cfg.Pick(60, 3000); i++ {
+		n := 1 + d.cfg.Rng.Intn(4)
+		var l []any
+		for k := 0; k < n; k++ {
+			switch d.cfg.Rng.Intn(6) {
+			case 0:
+				l = append(l, "")
+			case 1:
+				l = append(l, d.cfg.Rng.Intn(7)-2)
+			case 2:
+				l = append(l, strings.Repeat(" ", d.cfg.Rng.Intn(3)))
+			default:
+				l = append(l, []string{"urn:v:s", "urn:v:p", "urn:v:q", "urn:v:n", "x"}[d.cfg.Rng.Intn(5)])
+			}
+		}
+		lists = append(lists, l)
+	}
+	for _, parts := range lists {
+		parts := parts
+		input := map[string]any{"stream": "path", "parts": parts}
+		if len(fmt.Sprint(parts)) > 400 {
+			input = map[string]any{"stream": "path", "parts": fmt.Sprintf("%d parts, %d bytes", len(parts), len(fmt.Sprint(parts)))}
+		}
+		var p merklize.Path
+		mk := guard(watchdog, func() error {
+			var err error
+			p, err = merklize.NewPath(parts...)
+			return err
+		})
+		d.rep.Evaluations++
+		d.rep.Count("path:new:" + mk.Class)
+		d.rep.Distinct("path:" + fmt.Sprint(parts))
+		if mk.Class == "panic" || mk.Class == "hang" {
+			d.fail("NewPath", mk, input)
+			continue
+		}
+		if mk.Class != "ok" {
+			continue
+		}
+		var z *big.Int
+		o := guard(watchdog, func() error {
+			var err error
+			z, err = p.MtEntry()
+			return err
+		})
+		if o.Class == "ok" && z == nil {
+			o.Class = "nilnil"
+		}
+		d.rep.Count("path:mtentry:" + o.Class)
+		if o.Class == "panic" || o.Class == "hang" || o.Class == "nilnil" {
+			d.fail("Path.MtEntry", o, input)
+		}
+		// the same path through the merklizer's queries and through an entry
+		for name, f := range map[string]func() error{
+			"Merklizer.Entry":      func() error { _, err := mz.Entry(p); return err },
+			"Merklizer.Proof":      func() error { _, _, err := mz.Proof(context.Background(), p); return err },
+			"Merklizer.JSONLDType": func() error { _, err := mz.JSONLDType(p); return err },
+			"Merklizer.RawValue":   func() error { _, err := mz.RawValue(p); return err },
+			"RDFEntry.KeyValueMtEntries": func() error {
+				e, err := merklize.NewRDFEntry(p, "v")
+				if err != nil {
+					return err
+				}
+				k, v, err := e.KeyValueMtEntries()
+				if err == nil && (k == nil || v == nil) {
+					return fmt.Errorf("(nil, nil)")
+				}
+				return err
+			},
+			"Options.NewPath": func() error {
+				q, err := mz.Options().NewPath(parts...)
+				if err != nil {
+					return err
+				}
+				_, err = q.MtEntry()
+				return err
+			},
+		} {
+			qo := guard(watchdog, f)
+			d.rep.Evaluations++
+			d.rep.Count("path:" + name + ":" + qo.Class)
+			if qo.Class == "panic" || qo.Class == "hang" {
+				d.fail(name, qo, input)
+			}
+		}
+		if len(fmt.Sprint(parts)) > 400 {
+			continue
+		}
+		d.recordPathPrims(parts)
+		d.addCase(func(f *coqgen.File) string { return "IPath " + partsCoq(f, parts) }, o.Class, input)
+	}
+	// path strings resolved against the document / a context
+	ctxBytes := []byte(`{"@context":{"@vocab":"urn:v:","id":"@id","type":"@type","T":{"@id":"urn:v:T","@context":{"f":{"@id":"urn:v:f","@type":"http://www.w3.org/2001/XMLSchema#integer"}}}}}`)
+	for _, ps := range []string{"", ".", "..", "s", "s.", ".s", "p.q", "p.q.0", "p.q.-1", "p.q.99999999999999999999", "p..q", " ", "s. ", "\x00", long, "p." + long, strings.Repeat("p.", 2000) + "q", "T.f", "T..f", "f"} {
+		ps := ps
+		input := map[string]any{"stream": "path-string", "path": ps}
+		if len(ps) > 300 {
+			input["path"] = fmt.Sprintf("%d bytes", len(ps))
+		}
+		for name, f := range map[string]func() error{
+			"NewPathFromDocument": func() error {
+				p, err := merklize.Options{DocumentLoader: d.loader}.NewPathFromDocument(doc, ps)
+				if err != nil {
+					return err
+				}
+				_, err = p.MtEntry()
+				return err
+			},
+			"NewPathFromContext": func() error {
+				p, err := merklize.Options{DocumentLoader: d.loader}.PathFromContext(ctxBytes, ps)
+				if err != nil {
+					return err
+				}
+				_, err = p.MtEntry()
+				return err
+			},
+			"Merklizer.ResolveDocPath": func() error {
+				p, err := mz.ResolveDocPath(ps)
+				if err != nil {
+					return err
+				}
+				_, _, err = mz.Proof(context.Background(), p)
+				return err
+			},
+			"TypeFromContext": func() error {
+				_, err := merklize.Options{DocumentLoader: d.loader}.TypeFromContext(ctxBytes, ps)
+				return err
+			},
+		} {
+			qo := guard(watchdog, f)
+			d.rep.Evaluations++
+			d.rep.Count("path-string:" + name + ":" + qo.Class)
+			if qo.Class == "panic" || qo.Class == "hang" {
+				d.fail(name, qo, input)
+			}
+		}
+	}
+}
